@@ -31,13 +31,13 @@ CHECK = {
                   "cases skipped, negative-trim cases run with a large context); replays always run strict.",
     "design_ref": "DESIGN.md section 3 'Engine runnersim' / C14, section 4 row 11",
     "targets": [{"name": "TestC14Stream", "build": 0,
-                 "quick": {"cases": 8000, "shards": 4, "soft_s": 45},
+                 "quick": {"cases": 30000, "shards": 4, "soft_s": 45},
                  "thorough": {"cases": 600000, "shards": 16, "soft_s": 400}},
                 {"name": "TestC14StopLaws", "build": 1,
-                 "quick": {"cases": 20000, "shards": 1, "soft_s": 30},
+                 "quick": {"cases": 50000, "shards": 1, "soft_s": 30},
                  "thorough": {"cases": 1000000, "shards": 4, "soft_s": 300}}],
     "floors": {"stop_hit": 0.2, "stop_straddles_pieces": 0.03, "multibyte_straddles_pieces": 0.06, "limit_hit": 0.06, "eos_hit": 0.1,
-               "invalid_utf8_script": 0.04, "context_shift": 0.03, "law_cut_inside_character": 0.1, "law_stop_straddles_pieces": 0.05},
+               "invalid_utf8_script": 0.04, "context_shift": 0.03, "law_cut_inside_character": 0.05, "law_stop_straddles_pieces": 0.015},
     "rule": "rapid-generated: text = 0-14 atoms from {a b c space ab e-acute e-grave U+65E5 euro U+672C U+1F600 sharp-s newline} (1 in 10: 1-3 "
             "invalid byte sequences inserted), cut into 1-11 token pieces at arbitrary byte offsets (empty pieces allowed); 0-3 stop strings "
             "(substrings of the text at character boundaries, extensions / shortenings of earlier stop strings, unrelated atom sequences, "
